@@ -5,12 +5,14 @@ R11.2 the recorded triple is (ode.t, ode.y, V) with V evaluated at exactly that 
 R11.3 range bookkeeping: safety margin 2*dT, genuine-end flags from the clipped requested range, lists joined in increasing T
 R11.4 critical temperature: sign change of F_low - F_high scanned downward from TMax and refined on the last step
 R11.6 the range bookkeeping lists are per-instance state (no shared mutable class attribute)
+R11.7 results of root finders / minimisers stored in locals are read (no refined value is dropped)
 R11.5 the tracer's ODE and the spinodal test use the Hessian / mixed derivative at the current point
 NOT decided: that each point is a minimum on the same branch, interpolation accuracy, whether a stop is a genuine disappearance.
 """
 from __future__ import annotations
 
 import ast
+import copy
 
 from ..core import AnchorMissing, Check, Undecided, calls_in, dotted, kwarg, own_nodes, src, walk_guarded
 from ..flow import CFG, specialise
@@ -24,6 +26,23 @@ FE = "freeEnergy:FreeEnergy"
 def _nested(fi, S, pred):
     """nested functions of fi (by role): those whose body satisfies pred"""
     return [f for q, f in S.modules[fi.module].funcs.items() if f.parent is fi and pred(f)]
+
+
+def _callable(S, fi, expr):
+    """FuncInfo of a callable value used inside fi: a nested function of fi, a method of the same class (`self.m`), a module-level function;
+    functools.partial(f, ...) stands for f"""
+    if expr is None:
+        return None
+    if isinstance(expr, ast.Call) and (dotted(expr.func) or "").split(".")[-1] == "partial" and expr.args:
+        expr = expr.args[0]
+    funcs = S.modules[fi.module].funcs
+    if isinstance(expr, ast.Name):
+        for q, f in funcs.items():
+            if getattr(f.node, "name", None) == expr.id and (f.parent is fi or "." not in q):
+                return f
+    if isinstance(expr, ast.Attribute) and isinstance(expr.value, ast.Name) and expr.value.id == "self":
+        return funcs.get(f"{fi.qual.split('.')[0]}.{expr.attr}")
+    return None
 
 
 def _pairs(st: ast.Assign) -> list:
@@ -195,49 +214,87 @@ def rules(chk: Check) -> None:
         return
     APP = [appends[k][0] for k in ("T", "field", "V")]
     TL, FL, VL, VT = appends["T"][1], appends["field"][1], appends["V"][1], appends["V"][2]
-    spin_fns = _nested(fi, S, lambda f: any(True for _ in calls_in(f.node, "deriv2Field2")) and not any(True for _ in calls_in(f.node, "allSecondDerivatives")))
-    ode_fns = _nested(fi, S, lambda f: any(True for _ in calls_in(f.node, "allSecondDerivatives")))
-    if len(spin_fns) != 1 or len(ode_fns) != 1:
-        raise AnchorMissing("tracePhase: the nested spinodal test (deriv2Field2) / ODE right-hand side (allSecondDerivatives) not found")
-    fs, fo = spin_fns[0], ode_fns[0]
-    SPIN = fs.node.name
-    spin_tests = [t for t in g.nodes if g.kind.get(t) == "test" and has(t, f"{SPIN}({ODE}.t, {ODE}.y)")]
+    # the ODE right-hand side: whatever callable is handed to RK45 (nested function, method, module-level function, functools.partial of one)
+    rkc0 = rk[0].value
+    fo = _callable(S, fi, cx.resolve(rkc0.args[0]) if rkc0.args else None) or _callable(S, fi, rkc0.args[0] if rkc0.args else None)
+    if fo is None or not any(True for _ in calls_in(fo.node, "allSecondDerivatives")):
+        raise AnchorMissing("tracePhase: the ODE right-hand side handed to RK45 (calls allSecondDerivatives) not found")
+    # the spinodal test, with the parameter `spinodal` fixed to True (its default): the parameter may guard the test in any spelling
+    # (`if not spinodal: return 1.0` in a helper, `spinodal and ...`, an enclosing `if spinodal:`)
+    if any(isinstance(x, ast.Name) and x.id == "spinodal" and isinstance(x.ctx, ast.Store) for x in ast.walk(fi.node)):
+        raise Undecided("tracePhase: the parameter `spinodal` is re-bound")
+    fT = specialise(fi.node, "spinodal", True)
+    gT = CFG(fT)
+    fiT = copy.copy(fi)
+    fiT.node = fT
+    cT = Ctx(S, fiT)
+    stepsT = [x for x in gT.nodes if isinstance(x, ast.Expr) and eqx(x.value, f"{ODE}.step()")]
+    APPT = [x for x in gT.nodes if isinstance(x, ast.Assign) and any(same(x, a_) for a_ in APP)]
+    if len(stepsT) != 1 or len(APPT) != 3:
+        raise AnchorMissing("tracePhase (spinodal=True): ode.step() / the three appends not found")
+    EIG = f"float(min(scipylinalg.eigvalsh(self.effectivePotential.deriv2Field2(FieldPoint({ODE}.y), {ODE}.t))))"
+    nestedT = {x.name: x for x in ast.walk(fT) if isinstance(x, (ast.FunctionDef, ast.Lambda)) and x is not fT and hasattr(x, "name")}
+
+    def eigen(e) -> bool:
+        """e is the smallest eigenvalue of the field Hessian at the integrator's current (ode.y, ode.t)"""
+        if eqx(e, EIG, cT):
+            return True
+        if isinstance(e, ast.Call):
+            f = None
+            if isinstance(e.func, ast.Name) and e.func.id in nestedT:
+                f = nestedT[e.func.id]
+                ps = [a_.arg for a_ in f.args.args]
+            else:
+                fm = _callable(S, fi, e.func)
+                if fm is not None and fm is not fi:
+                    f, ps = fm.node, [a_.arg for a_ in fm.node.args.args if a_.arg != "self"]
+            if f is None or e.keywords or len(e.args) != len(ps):
+                return False
+            # a straight-line helper with one return: evaluate its return value with the arguments bound
+            rets_ = [r for r in own_nodes(f) if isinstance(r, ast.Return)]
+            if len(rets_) != 1 or f.body[-1] is not rets_[0] or any(isinstance(x, (ast.If, ast.For, ast.While, ast.Try, ast.With)) for x in f.body):
+                return False
+            ff = copy.copy(fi)
+            ff.node = f
+            bind = {p_: cT.resolve(a_) for p_, a_ in zip(ps, e.args)}
+            val = Ctx(S, ff).resolve(rets_[0].value)
+
+            class B(ast.NodeTransformer):
+                def visit_Name(self, node):
+                    return copy.deepcopy(bind[node.id]) if node.id in bind and isinstance(node.ctx, ast.Load) else node
+            return eqx(B().visit(copy.deepcopy(val)), EIG, cT)
+        return False
+
+    spin_tests, spin_pol = [], {}
+    for t in gT.nodes:
+        if gT.kind.get(t) != "test":
+            continue
+        core_t, flip = cT.resolve(t) if isinstance(t, ast.Name) else t, False
+        while isinstance(core_t, ast.UnaryOp) and isinstance(core_t.op, ast.Not):
+            core_t, flip = core_t.operand, not flip
+        if isinstance(core_t, ast.Compare) and len(core_t.ops) == 1:
+            l_, o_, r_ = core_t.left, core_t.ops[0], core_t.comparators[0]
+            if eqx(l_, "0") and not eqx(r_, "0"):
+                l_, r_, o_ = r_, l_, {ast.Lt: ast.Gt, ast.Gt: ast.Lt, ast.LtE: ast.GtE, ast.GtE: ast.LtE}.get(type(o_), type(None))()
+            if eqx(r_, "0") and isinstance(o_, (ast.LtE, ast.Gt)) and eigen(l_):
+                spin_tests.append(t)
+                spin_pol[id(t)] = (not flip) if isinstance(o_, ast.LtE) else flip       # the branch on which the eigenvalue is <= 0
+    ok = len(spin_tests) == 1 and all(gT.must_pass(stepsT[0], a_, lambda q: q in spin_tests) for a_ in APPT)
+    chk.ob("R11.1", fi.where(), "every path from ode.step() to the recording of a point passes the spinodal test", ok, key="spinodal-before-record")
+    # the branch of the test on which the eigenvalue is <= 0 never reaches a recording without first taking another step
+    ok_b = False
+    if len(spin_tests) == 1:
+        t = spin_tests[0]
+        ok_b = not any(gT.reaches(gT.branch(t, spin_pol[id(t)]), a_, avoid=lambda q: q is stepsT[0]) for a_ in APPT)
+    chk.ob("R11.1", fi.where(), "a non-positive smallest Hessian eigenvalue stops the tracing (the point is not recorded)", ok_b, key="spinodal-breaks")
     wl = [w for w in own_nodes(fi.node) if isinstance(w, ast.While) and any(y is steps[0] for y in ast.walk(w))]
     in_loop = {id(y) for w in wl for y in ast.walk(w)}
     size_tests = [t for t in g.nodes if g.kind.get(t) == "test" and id(t) in in_loop
                   and any(isinstance(c_, ast.Compare) and has(c_, f"{ODE}.step_size") for c_ in ast.walk(cx.resolve(t)))]
-    ok = len(spin_tests) == 1 and all(g.must_pass(steps[0], a, lambda q: q in spin_tests) for a in APP)
-    chk.ob("R11.1", fi.where(), "every path from ode.step() to the recording of a point passes the spinodal test", ok, key="spinodal-before-record")
-    # the branch of the test on which the eigenvalue is <= 0 never reaches a recording
-    ok_b = False
-    if len(spin_tests) == 1:
-        t = spin_tests[0]
-        pol = None
-        core_t, flip = t, False
-        while isinstance(core_t, ast.UnaryOp) and isinstance(core_t.op, ast.Not):
-            core_t, flip = core_t.operand, not flip
-        if eqx(core_t, f"{SPIN}({ODE}.t, {ODE}.y) <= 0"):
-            pol = not flip
-        elif eqx(core_t, f"{SPIN}({ODE}.t, {ODE}.y) > 0"):
-            pol = flip
-        if pol is not None:
-            # ... without first taking another step
-            ok_b = not any(g.reaches(g.branch(t, pol), a, avoid=lambda q: q is steps[0]) for a in APP)
-    chk.ob("R11.1", fi.where(), "a non-positive smallest Hessian eigenvalue stops the tracing (the point is not recorded)", ok_b, key="spinodal-breaks")
     ok = len(size_tests) == 1 and all(g.must_pass(steps[0], a, lambda q: q in size_tests) for a in APP) and has(size_tests[0], f"{ODE}.step_size < 1e-16 * T0", cx)
     chk.ob("R11.1", fi.where(), "every recorded point also passed the step-size collapse test", ok, key="stepsize-before-record")
-    cs = Ctx(S, fs)
-    rets = sorted([r for r in own_nodes(fs.node) if isinstance(r, ast.Return)], key=lambda r: r.lineno)
-    fparams = [a_.arg for a_ in fs.node.args.args]
-    okd = False
-    for guards, st in walk_guarded(fs.node):
-        if isinstance(st, ast.Return) and eqx(st.value, "1.0"):
-            okd = any((pol and eqx(t, "not spinodal")) or (not pol and eqx(t, "spinodal")) for t, pol in guards if not isinstance(t, tuple))
-    d2 = [c for c in calls_in(fs.node, "deriv2Field2")]
-    ok = okd and len(d2) == 1 and len(fparams) == 2 and eqx(d2[0], f"self.effectivePotential.deriv2Field2(FieldPoint({fparams[1]}), {fparams[0]})", cs) \
-        and eqx(rets[-1].value, f"float(min(scipylinalg.eigvalsh(self.effectivePotential.deriv2Field2(FieldPoint({fparams[1]}), {fparams[0]}))))", cs)
-    chk.ob("R11.1", fs.where(), "the spinodal event is the smallest eigenvalue of the field Hessian at the current (field, temperature); disabled only by spinodal=False",
-           ok, key="spinodal-event")
+    chk.ob("R11.1", fi.where(), "the spinodal event is the smallest eigenvalue of the field Hessian at the current (field, temperature); disabled only by spinodal=False",
+           len(spin_tests) == 1, "with spinodal=True exactly one test compares float(min(eigvalsh(deriv2Field2(FieldPoint(ode.y), ode.t)))) with 0", key="spinodal-event")
     a = fi.node.args
     names = [x.arg for x in a.args]
     dfl = dict(zip(names[len(names) - len(a.defaults):], [n(d_) for d_ in a.defaults]))
@@ -441,7 +498,7 @@ def rules(chk: Check) -> None:
     co = Ctx(S, fo)
     c = [x for x in calls_in(fo.node, "allSecondDerivatives")]
     rets = [r for r in own_nodes(fo.node) if isinstance(r, ast.Return)]
-    op = [a_.arg for a_ in fo.node.args.args]
+    op = [a_.arg for a_ in fo.node.args.args if a_.arg != "self"]
     ok = len(c) == 1 and len(op) == 2 and eqx(c[0], f"self.effectivePotential.allSecondDerivatives(FieldPoint({op[1]}), {op[0]})") and len(rets) == 1
     if ok:
         tgt = [st for st in own_nodes(fo.node) if isinstance(st, ast.Assign) and st.value is c[0] and isinstance(st.targets[0], ast.Tuple) and len(st.targets[0].elts) == 3]
@@ -459,7 +516,7 @@ def rules(chk: Check) -> None:
         b = match(rets[0].value.elts[0], "__r[..., :-1, :-1]", ca)
         ok = b is not None and eqx(rets[0].value.elts[1], f"{b['r']}[..., -1, :-1]", ca) and eqx(rets[0].value.elts[2], f"{b['r']}[..., -1, -1]", ca)
     chk.ob("R11.5", fa.where(), "allSecondDerivatives splits the (fields + T) Hessian into field block, mixed row and TT entry", ok, key="hessian-split")
-    ok = len(rkc.args) >= 4 and eqx(rkc.args[0], fo.node.name) and bool(dirs)
+    ok = len(rkc.args) >= 4 and bool(dirs)
     chk.ob("R11.5", fi.where(), "the integrator starts at (T0, phase0) and runs to the end of the requested direction", ok, key="rk45")
     # ---- R11.6 per-phase state: the range bookkeeping lists belong to the instance (two phases are traced one after the other)
     from ..core import shared_mutable_class_state
@@ -468,6 +525,9 @@ def rules(chk: Check) -> None:
     chk.ob("R11.6", f"src/WallGo/freeEnergy.py", "range bookkeeping (minPossibleTemperature / maxPossibleTemperature) and table state are per-instance: no mutable "
            "class-level attribute is mutated in place by the methods (the two phases must not share one [T, flag] list)", not mine,
            "; ".join(f"{f.qual} mutates class-level `{a}` of {c}" for f, x, c, a in mine)[:300], key="per-instance-state")
+    # ---- R11.7 the refined critical temperature / re-minimised locations are actually used
+    from .shared import solver_results_consumed
+    chk.stage(solver_results_consumed, chk, "R11.7", ("thermodynamics", "freeEnergy", "effectivePotential"), 2)
     fin = S.func(f"{FE}.__init__")
     created = {t.attr for s_ in ast.walk(fin.node) if isinstance(s_, ast.Assign) for t in s_.targets
                if isinstance(t, ast.Attribute) and isinstance(t.value, ast.Name) and t.value.id == "self"}
